@@ -175,6 +175,8 @@ impl Default for Script {
 
 pub struct MockShared {
     pub log: Vec<(u64, Ev)>,
+    /// global order stamps parallel to `log`
+    pub ords: Vec<u64>,
     pub taken: usize,
     pub script: Script,
     pub clock: Clock,
@@ -188,7 +190,8 @@ impl Mock {
         let mut g = self.0.lock().unwrap_or_else(|e| e.into_inner());
         let t = g.clock.now_ms();
         g.log.push((t, ev));
-        io::bump();
+        let o = io::bump();
+        g.ords.push(o);
     }
     pub fn script<R>(&self, f: impl FnOnce(&mut Script) -> R) -> R {
         let mut g = self.0.lock().unwrap_or_else(|e| e.into_inner());
@@ -200,6 +203,13 @@ impl Mock {
         let s = g.taken;
         g.taken = g.log.len();
         g.log[s..].to_vec()
+    }
+    /// events since the last call with their global order stamps
+    pub fn take_ordered(&self) -> Vec<(u64, u64, Ev)> {
+        let mut g = self.0.lock().unwrap_or_else(|e| e.into_inner());
+        let s = g.taken;
+        g.taken = g.log.len();
+        (s..g.log.len()).map(|i| (g.ords[i], g.log[i].0, g.log[i].1.clone())).collect()
     }
     pub fn all(&self) -> Vec<(u64, Ev)> {
         self.0.lock().unwrap_or_else(|e| e.into_inner()).log.clone()
@@ -446,7 +456,7 @@ impl OutSim {
     /// `setup` runs on the database before the first connection
     pub async fn start_with(cfg: OutCfg, setup: impl FnOnce(&mut Database)) -> OutSim {
         let clock = Clock::start();
-        let mock = Mock(Arc::new(Mutex::new(MockShared { log: vec![], taken: 0, script: Script::default(), clock })));
+        let mock = Mock(Arc::new(Mutex::new(MockShared { log: vec![], ords: vec![], taken: 0, script: Script::default(), clock })));
         let config = make_config(&cfg);
         let modes = LinkModes {
             error_mode: if cfg.discard { LinkErrorMode::Discard } else { LinkErrorMode::Close },
@@ -539,11 +549,11 @@ impl OutSim {
         let mut out = vec![];
         for p in self.old_pipes.clone() {
             for t in p.take_tx() {
-                out.push(Rx::Garbage { t_ms: t.t_ms, why: "write on a connection that was replaced".into(), bytes: t.bytes });
+                out.push(Rx::Garbage { ord: t.ord, t_ms: t.t_ms, why: "write on a connection that was replaced".into(), bytes: t.bytes });
             }
         }
         for t in self.pipe.take_tx() {
-            self.decoder.feed(t.t_ms, &t.bytes, &mut out);
+            self.decoder.feed(t.ord, t.t_ms, &t.bytes, &mut out);
         }
         self.rx_log.extend(out.iter().cloned());
         out
